@@ -22,6 +22,7 @@ docstrings, `warnings.simplefilter(…)`; `with warnings.catch_warnings():` and 
 from __future__ import annotations
 
 import ast
+import re
 import os
 from pathlib import Path
 
@@ -29,7 +30,7 @@ REPO = Path(os.environ.get("VERIF_REPO", "/repo"))
 FLAG = {"GOOD": ".good", "UNKNOWN": ".unknown", "SUSPECT": ".suspect", "FAIL": ".fail", "MISSING": ".missing"}
 FUNCS = {"gross_range_test": "ioos_qc/qartod.py", "spike_test": "ioos_qc/qartod.py", "rate_of_change_test": "ioos_qc/qartod.py",
          "location_test": "ioos_qc/qartod.py", "density_inversion_test": "ioos_qc/qartod.py",
-         "flat_line_test": "ioos_qc/qartod.py", "climatology_test": "ioos_qc/qartod.py", "attenuated_signal_test": "ioos_qc/qartod.py", "qartod_compare": "ioos_qc/qartod.py", "speed_test": "ioos_qc/argo.py", "pressure_increasing_test": "ioos_qc/argo.py", "valid_range_test": "ioos_qc/axds.py"}
+         "flat_line_test": "ioos_qc/qartod.py", "climatology_test": "ioos_qc/qartod.py", "attenuated_signal_test": "ioos_qc/qartod.py", "save": "ioos_qc/stores.py", "qartod_compare": "ioos_qc/qartod.py", "speed_test": "ioos_qc/argo.py", "pressure_increasing_test": "ioos_qc/argo.py", "valid_range_test": "ioos_qc/axds.py"}
 
 
 class Untranslatable(Exception):
@@ -964,7 +965,81 @@ class TrAtten:
         self.emit(ind, "check_val := rollingApply window_func min_periods inp tinp test_period")
 
 
+# ------------------------------------------------------------------------------------------------------------------------------
+# stores.column_from_collected_result + PandasStore.save: a loop whose body only re-binds the frame -> a fold, one `let` per statement
+# ------------------------------------------------------------------------------------------------------------------------------
+class TrStore:
+    FIELD = {"stream_id": "stream", "package": "package", "test": "test", "function": "fn", "results": "results", "data": "data",
+             "tinp": "tinp", "zinp": "zinp", "lon": "lon", "lat": "lat"}
+
+    def __init__(self, tree):
+        self.tree = tree
+
+    def column_fn(self):
+        fn = next(n for n in self.tree.body if isinstance(n, ast.FunctionDef) and n.name == "column_from_collected_result")
+        body = [src(b) for b in fn.body if not (isinstance(b, ast.Expr) and isinstance(b.value, ast.Constant))]
+        want = ["stream_label = f'{cr.stream_id}.' if cr.stream_id else ''", "package_label = f'{cr.package}.' if cr.package else ''",
+                "test_label = f'{cr.test}' if cr.test else ''", "return cf_safe_name(f'{stream_label}{package_label}{test_label}')"]
+        if [a.arg for a in fn.args.args] != ["cr"] or body != want:
+            raise Untranslatable(f"column_from_collected_result: {body}")
+        return ("def column_from_collected_result (cr : StoreRes) : String :=\n"
+                "  let stream_label := dotted cr.stream\n"
+                "  let package_label := dotted cr.package\n"
+                "  let test_label := cr.test\n"
+                "  String.ofList (cfSafeName (stream_label ++ package_label ++ test_label).toList)\n")
+
+    def run(self):  # noqa: C901
+        cls = next(n for n in self.tree.body if isinstance(n, ast.ClassDef) and n.name == "PandasStore")
+        fn = next(n for n in cls.body if isinstance(n, ast.FunctionDef) and n.name == "save")
+        if [a.arg for a in fn.args.args] != ["self", "write_data", "write_axes", "include", "exclude"]:
+            raise Untranslatable("signature of PandasStore.save")
+        body = [b for b in fn.body if not (isinstance(b, ast.Expr) and isinstance(b.value, ast.Constant))]
+        if not (len(body) == 3 and src(body[0]) == "df = pd.DataFrame()" and isinstance(body[1], ast.For) and src(body[1].target) == "cr"
+                and src(body[1].iter) == "self.collected_results" and not body[1].orelse and src(body[2]) == "return df"):
+            raise Untranslatable("shape of PandasStore.save")
+        out = []
+        for st in body[1].body:
+            t = src(st.test) if isinstance(st, ast.If) else None
+            stmts = [src(b) for b in getattr(st, "body", []) if not is_call(getattr(b, "value", None), "L.info")]
+            m = t and re.fullmatch(r"write_axes is True and self\.axes\['(\w)'\] not in df and \(cr\.(\w+) is not None\) and \(cr\.(\w+)\.size != 0\)", t)
+            if m and m.group(2) == m.group(3) and m.group(2) in ("tinp", "zinp", "lon", "lat") and not st.orelse \
+                    and stmts == [f"df[self.axes['{m.group(1)}']] = cr.{m.group(2)}"]:
+                k, a = m.group(1), m.group(2)
+                out += [f"    let df := match cr.{a} with",
+                        f"      | some {a} => if write_axes = true && !(df.has axes.{k}) then setCol df axes.{k} {a} else df",
+                        "      | none => df"]
+                continue
+            if t == "include is not None and (cr.function not in include and cr.stream_id not in include and (cr.test not in include))" \
+                    and [src(b) for b in st.body] == ["continue"] and not st.orelse:
+                out += ["    if (match include_ with",
+                        "        | some include_ => !(include_.contains cr.fn) && !(include_.contains cr.stream) && !(include_.contains cr.test)",
+                        "        | none => false) then df       -- continue", "    else"]
+                continue
+            if t == "exclude is not None and (cr.function in exclude or cr.stream_id in exclude or cr.test in exclude)" \
+                    and [src(b) for b in st.body] == ["continue"] and not st.orelse:
+                out += ["    if (match exclude_ with",
+                        "        | some exclude_ => exclude_.contains cr.fn || exclude_.contains cr.stream || exclude_.contains cr.test",
+                        "        | none => false) then df       -- continue", "    else"]
+                continue
+            if t == "write_data and cr.stream_id not in df and cr.stream_id" and stmts == ["df[cr.stream_id] = cr.data"] and not st.orelse:
+                out.append('    let df := if write_data && !(df.has cr.stream) && cr.stream != "" then setCol df cr.stream cr.data else df')
+                continue
+            if src(st) == "column_name = column_from_collected_result(cr)":
+                out.append("    let column_name := column_from_collected_result cr")
+                continue
+            if t == "column_name not in df" and stmts == ["df[column_name] = cr.results"] \
+                    and all(is_call(getattr(b, "value", None), "L.warning") for b in st.orelse):
+                out.append("    let df := if !(df.has column_name) then setCol df column_name cr.results else df")
+                continue
+            raise Untranslatable(f"PandasStore.save: {src(st)[:80]}")
+        head = ("def save (collected_results : List StoreRes) (axes : Axes) (write_data : Bool) (write_axes : Bool) "
+                "(include_ : Option (List String)) (exclude_ : Option (List String)) : Frame :=\n  collected_results.foldl (fun df cr =>\n")
+        return self.column_fn() + "\n" + head + "\n".join(out) + "\n    df) []\n"
+
+
 def translate(name: str) -> str:
+    if name == "save":
+        return TrStore(ast.parse((REPO / "ioos_qc/stores.py").read_text())).run()
     if name == "attenuated_signal_test":
         tree = ast.parse((REPO / "ioos_qc/qartod.py").read_text())
         return TrAtten(next(n for n in tree.body if isinstance(n, ast.FunctionDef) and n.name == name)).run()
